@@ -516,7 +516,7 @@ def predicate_expr(facts, fn, rl, owners, param=1):
 
 # --------------------------------------------------------------------------- finite evaluation of pure integer tests
 
-def eval_pure(fn, start_block, start_stmt, env, stop):
+def eval_pure(fn, start_block, start_stmt, env, stop, want_env=False):
     """Evaluate straight-line integer/boolean MIR (assignments of use/bin/un/cast over known locals, switches) from
     (start_block, start_stmt) under `env` {local: int}.  Stops when control reaches a block for which stop(block)
     returns a label (that label is returned), or at a call/return (returns ('term', block)).  Unknown values used
@@ -535,14 +535,17 @@ def eval_pure(fn, start_block, start_stmt, env, stop):
         p = op[1]
         if len(p) == 1:
             return env.get(p[0])
+        if len(p) == 2 and p[1] == "*" and p[0] in refs:
+            return env.get(refs[p[0]])        # `*r` where `r = &local` (match guards read the scrutinee through a reference)
         return None
+    refs = {}
     masks = {"u8": 0xFF, "u16": 0xFFFF, "u32": 0xFFFFFFFF}
     while steps < 10000:
         steps += 1
         if si == 0:
             lab = stop(bi)
             if lab is not None:
-                return lab
+                return (lab, env) if want_env else lab
         b = fn.blocks[bi]
         for s in b["s"][si:]:
             if s[0] != "=" or len(s[1]) != 1:
@@ -551,6 +554,9 @@ def eval_pure(fn, start_block, start_stmt, env, stop):
             d = s[1][0]
             if rv[0] == "use":
                 env[d] = val(rv[1])
+            elif rv[0] == "ref" and len(rv[2]) == 1:
+                refs[d] = rv[2][0]
+                env[d] = None
             elif rv[0] == "bin":
                 a, c = val(rv[2]), val(rv[3])
                 if a is None or c is None:
@@ -597,7 +603,7 @@ def eval_pure(fn, start_block, start_stmt, env, stop):
         if k == "assert":
             bi, si = t["to"], 0
             continue
-        return ("term", bi)
+        return (("term", bi), env) if want_env else ("term", bi)
     raise CheckError("%s: evaluation did not terminate" % fn.name)
 
 
